@@ -8,7 +8,7 @@ import tempfile
 import mido
 
 from harness import core, project as P
-from harness.common import pmap, build, score_abs
+from harness.common import pmap, build, score_abs, via
 
 core.import_scoda()
 from scoda.misc.music_theory import Key  # noqa: E402
@@ -31,7 +31,7 @@ def saveload(case):
     line = {"kind": "saveload", "saved": [], "loaded": [], "raised": "", "case": {"scores": scores}}
     path = tmpfile()
     try:
-        seqs = [build(sc, "abs" if (idx + i) % 2 == 0 else "rel") for i, sc in enumerate(scores)]
+        seqs = [build(sc, via(idx + i)) for i, sc in enumerate(scores)]
         line["saved"] = [P.raw_rel(s) for s in seqs]
         Sequence.sequences_save(seqs, path)
         loaded = Sequence.sequences_load(file_path=path)
